@@ -3,10 +3,12 @@
 Every clause is decided on the enumerated paths of the abstract interpreter (path condition, ordered call / store / await events,
 returned term), with `Runtime::block_on(fut)` and `tokio::spawn(fut)` modelled as "the future is run": an `async move { .. }`
 block is evaluated where it is driven, any other future value is awaited there.  Local names, statement order of independent
-`let`s, `?` versus an explicit `match`, `Result::map`, named futures and helper functions therefore do not matter."""
+`let`s, `?` versus an explicit `match`, `Result::map`, named futures and helper functions (plain or `async fn`, awaited in place or handed to block_on as a future) therefore
+do not matter.  A `clone()` is its receiver only where the workspace's Clone impls make it a faithful copy (cloneid).  D is about the public
+surface: a private helper of LdapConn has no sibling and is judged through its callers."""
 import re
 from facts import walk, callee_of, loc
-import hirq, absx, sem
+import hirq, absx, sem, cloneid
 
 EXPLANATION = ("For every LdapConn method with a same-named Ldap method, on every path: either (A) exactly one call of Ldap::<same name> on the "
                "connection's own handle with the method's own parameters in order (through at most the transparent IntoAdapterVec::into), "
@@ -16,13 +18,16 @@ EXPLANATION = ("For every LdapConn method with a same-named Ldap method, on ever
                "synchronous sibling LdapConn::x stands for the awaited Ldap::x. Signatures agree modulo async / SearchStream -> EntryStream. "
                "Constructors: new / with_settings / from_url (both families) amount to from_url_with_settings(settings or LdapConnSettings::new(), "
                "url or Url::parse(url)?) and return its result unmodified; LdapConn::from_url_with_settings builds a current-thread runtime with all "
-               "drivers enabled, runs LdapConnAsync::from_url_with_settings(settings, url) on it, on success spawns conn.drive() inside that runtime "
+               "drivers enabled, runs LdapConnAsync::from_url_with_settings(settings, url) on it - with the caller's own settings value: moved, or moved out of a `&mut` to it "
+               "by mem::take / mem::replace; a clone() of it only if the crate's Clone impls make that clone a faithful copy, field by field (a hand-written Clone that answers a constant, "
+               "as StdStream's, does not) -, on success spawns conn.drive() inside that runtime "
                "and keeps that runtime and the returned handle, on failure returns the error unmodified and spawns nothing. "
                "EntryStream::next/result/last_id delegate to SearchStream::next/finish/ldap_handle().last_id(); the two stream wrappers are evaluated from every value of the stream's state "
                "(the stream's `&self` accessors evaluated), and a path that answers by itself is accepted exactly when the asynchronous method, entered with the same state under the same tests, returns the same value "
                "on every path and does nothing. Decided completely for what the type "
                "checker cannot see: swapped same-typed arguments, a wrong same-typed method, a dropped or altered modifier.")
-TRUSTED = ['tokio current-thread runtime block_on returns the future\'s output']
+TRUSTED = ['tokio current-thread runtime block_on returns the future\'s output',
+           'Clone::clone of a type defined outside the workspace is a faithful copy when the clones of its type arguments are (std\'s Clone contract); Clone impls of the workspace are evaluated (rules/cloneid.py)']
 UNDECIDED = ['behaviour of the private current-thread runtime (tokio)']
 ASSUMPTIONS = []
 CONFIGS = ['default', 'rustls', 'gssapi']      # the `sync` feature is off in the no-default-features configuration
@@ -133,18 +138,54 @@ def wraps_stream(v, o, res):
         return set(fl) == {'stream', 'conn'} and fl['stream'] == ('variant', res, 'Ok', 0) and fl['conn'] == SELF and sem.succeeded(o, lambda x: x == res)
     return False
 
+def not_the_value(f, o, a, want):
+    """Why the argument term `a` is not the caller's value `want`, when it is a clone of it: the clone of a type is that value only
+    if every Clone impl involved is a faithful copy, which cloneid decides from the crate's Clone impls.  (A move, or the value moved
+    out of a `&mut` to it by mem::take / mem::replace, *is* the value: the interpreter yields `want` itself for those.)"""
+    for i, cal, args, node in sem.calls(o, lambda c: c.rsplit('::', 1)[-1] in cloneid.CLONING_METHODS):
+        if call_term((i, cal, args, node)) == a and tuple(args) == (want,):
+            return '; it receives %s.%s(), and %s' % (absx.fmt(want), cal.rsplit('::', 1)[-1], cloneid.why(f, node.get('ty') or '') or 'that clone is not shown to be the identity')
+    return ''
+
 def own_params(B):
     return [t for i, t in sorted((d['idx'], ('param', d['name'])) for b, d in B.defs.items() if d['kind'] == 'param' and not d['proj'])]
 
 def is_async_fn(f, p):
     return f.hir[p]['body'].get('k') == 'Closure' and 'async fn body' in (f.hir[p]['body'].get('ty') or '')
 
-def effects(o, allowed=()):
-    """What a path does besides the allowed calls: stores, spawned tasks, calls into the crate."""
+def builds_a_value_only(f, cal, _busy=()):
+    """The crate function `cal` takes no argument and, on every path, does nothing but put a value together: no store, no task, no
+    call other than of functions of the same kind (`Default::default()` of the primitive types and of Option is a constant).  Calling
+    it is not an effect (`LdapConnSettings::new()` as the value left behind by a mem::replace).  Decided on its body, on every run."""
+    cache = f.__dict__.setdefault('_c14_value_only', {})
+    if cal in cache:
+        return cache[cal]
+    it = f.items.get(cal) or {}
+    if cal in _busy or cal not in f.hir or it.get('inputs') or it.get('asyncness'):
+        return False
+    try:
+        outs, _I = sem.paths(f, hirq.Body(f, f.hir[cal]), summaries=[sem.primitive_defaults], combinators=True)
+    except absx.TooManyPaths:
+        return False
+    ok = bool(outs)
+    for o in outs:
+        ok = ok and o.kind in ('val', 'ret')
+        for e in o.st.ev:
+            if e[0] in SKIP_EVENTS:
+                continue
+            ok = ok and e[0] == 'call' and not e[2] and builds_a_value_only(f, e[1], _busy + (cal,))
+    if not _busy:
+        cache[cal] = ok
+    return ok
+
+def effects(o, allowed=(), f=None):
+    """What a path does besides the allowed calls: stores, spawned tasks, calls into the crate (other than of a function that only
+    puts a value together, when the facts are given)."""
     ex = [absx.fmt(e[1])[:40] for e in o.st.ev if e[0] in ('store', 'store-unknown')]
     ex += ['spawn'] * len([e for e in o.st.ev if e[0] == 'spawn' and 'spawn' not in allowed])
     ex += [c[1] for c in sem.calls(o, lambda c: (c.startswith('ldap3::') or c.startswith('<ldap3::')) and c not in allowed and not hirq.is_transparent(c)
-                                           and not FROM_IMPL.match(c))]      # the conversion `?` applies, spelled out
+                                           and not FROM_IMPL.match(c))      # the conversion `?` applies, spelled out
+           if not (f is not None and not c[2] and builds_a_value_only(f, c[1]))]
     return ex
 
 
@@ -161,6 +202,12 @@ def run(ctx):
         ap = ASYNC + m
         B = hirq.Body(f, f.hir[sp])
         ctx.analysed['bodies'].add(sp)
+        if ap not in f.hir and (f.items.get(sp) or {}).get('vis') != 'pub':
+            # D is about the public LdapConn surface.  A private helper of the synchronous module has no sibling to agree with: what it
+            # does is judged where it is used - expanded into its callers at fact load when it is new, and otherwise an effect of its
+            # own (`effects`: a call into the crate that is not the sibling) in every public method that calls it
+            ctx.note('private LdapConn::%s has no asynchronous sibling: judged through its callers' % m)
+            continue
         if ap not in f.hir:
             ctx.fail('D.sibling-exists', m, loc(B.root), 'LdapConn::%s has no same-named Ldap method' % m)
             continue
@@ -517,8 +564,9 @@ def check_delegating_ctor(ctx, f, kind, prefix, name):
             return sem.strip_site(t)
         got = (inst(dspec[0]), inst(dspec[1]))
         if got != spec:
-            bad.append('%s(%s) amounts to from_url_with_settings(%s, %s), expected (%s, %s)' % (dname, ', '.join(absx.fmt(a)[:30] for a in args), absx.fmt(got[0])[:40], absx.fmt(got[1])[:40],
-                                                                                            absx.fmt(spec[0]), absx.fmt(spec[1])))
+            bad.append('%s(%s) amounts to from_url_with_settings(%s, %s), expected (%s, %s)%s' % (dname, ', '.join(absx.fmt(a)[:30] for a in args), absx.fmt(got[0])[:40], absx.fmt(got[1])[:40],
+                                                                                              absx.fmt(spec[0]), absx.fmt(spec[1]),
+                                                                                              ''.join(not_the_value(f, o, a, x) for a in args for x in spec if isinstance(x, tuple) and a != x)))
         call_t = call_term(dels[0])
         if is_async_fn(f, cal):
             if len([1 for j, t, nd in sem.awaits(o) if t == call_t]) != 1:
@@ -532,7 +580,7 @@ def check_delegating_ctor(ctx, f, kind, prefix, name):
         bad.append('no path returns')
     text = {'new': 'new(url) is not with_settings(LdapConnSettings::new(), url)', 'from_url': 'from_url(url) is not from_url_with_settings(LdapConnSettings::new(), url)',
             'with_settings': 'with_settings(settings, url) is not from_url_with_settings(settings, &Url::parse(url)?)'}[name]
-    ctx.add(rule, kind, loc(B.root), not bad, '%s: %s' % (text, '; '.join(sorted(set(bad)))[:300]))
+    ctx.add(rule, kind, loc(B.root), not bad, '%s: %s' % (text, '; '.join(sorted(set(bad)))[:500]))
 
 def builder_root(t):
     """The Builder a term denotes: the configuration methods of tokio's runtime Builder return the builder they are called on."""
@@ -553,7 +601,7 @@ def check_sync_from_url_with_settings(ctx, f):
         if o.kind not in ('val', 'ret'):
             bad['delegates'].append('a path of the constructor does not return (%s)' % o.kind); continue
         ev, v = o.st.ev, o.val
-        extra = effects(o, allowed=(dp, 'spawn', AC + 'drive'))
+        extra = effects(o, allowed=(dp, 'spawn', AC + 'drive'), f=f)
         # creating the future of drive() is inert; it has to be the future the spawned task awaits (checked below on the success path)
         spawned_awaits = [e2[1] for e in ev if e[0] == 'spawn' for k_, v_, sev in e[1] for e2 in sev if e2[0] == 'await']
         extra += [c[1] for c in sem.calls(o, lambda c: c == AC + 'drive') if call_term(c) not in spawned_awaits]
@@ -594,7 +642,8 @@ def check_sync_from_url_with_settings(ctx, f):
             bad['delegates'].append('a path calls LdapConnAsync::from_url_with_settings %d times' % len(dcalls)); continue
         i, cal, args, node = dcalls[0]
         if list(args) != params:
-            bad['delegates'].append('LdapConnAsync::from_url_with_settings is called with %s, expected the parameters in order %s' % ([absx.fmt(a)[:30] for a in args], [absx.fmt(x) for x in params]))
+            bad['delegates'].append('LdapConnAsync::from_url_with_settings is called with %s, expected the caller\'s own values in order %s%s' % (
+                [absx.fmt(a)[:30] for a in args], [absx.fmt(x) for x in params], ''.join(not_the_value(f, o, a, x) for a, x in zip(args, params) if a != x)))
         call_t = call_term(dcalls[0])
         aw = ('await', call_t)
         aws = [j for j, t, nd in sem.awaits(o) if t == call_t]
@@ -642,7 +691,7 @@ def check_sync_from_url_with_settings(ctx, f):
             'keeps-handle': 'LdapConn does not keep the handle returned by the async constructor and the runtime that drives it: ',
             'error-unmodified': '', 'no-extra-effects': ''}
     for r in rules:
-        ctx.add('T.from_url_with_settings.' + r, 'sync', loc(B.root), not bad[r], text[r] + '; '.join(sorted(set(bad[r])))[:300])
+        ctx.add('T.from_url_with_settings.' + r, 'sync', loc(B.root), not bad[r], text[r] + '; '.join(sorted(set(bad[r])))[:600])
     return len(rules)
 
 def check_ctor_signature(ctx, f, name):
